@@ -38,7 +38,10 @@ func Got[T any](_ <-chan T, r Sel) T {
 		var z T
 		return z
 	}
-	return r.recv.Interface().(T)
+	// (a nil value of an interface element type - `done <- nil` on a chan error - comes back as
+	// an untyped nil interface, which no type assertion accepts)
+	v, _ := r.recv.Interface().(T)
+	return v
 }
 
 //go:norace
